@@ -155,9 +155,10 @@ def render_member(owner: Optional[str], m: Dict[str, Any], indent: str, out: Lis
     elif kind == "pget":
         lines.append("@property")
     elif kind == "pset":
-        lines.append("@{}.setter".format(m["name"]))
+        # ``ext_of``: the accessor is added to the (inherited) property object of a base class: @Base.name.setter
+        lines.append("@{}{}.setter".format(m["ext_of"] + "." if m.get("ext_of") else "", m["name"]))
     elif kind == "pdel":
-        lines.append("@{}.deleter".format(m["name"]))
+        lines.append("@{}{}.deleter".format(m["ext_of"] + "." if m.get("ext_of") else "", m["name"]))
     if m.get("abstract"):
         lines.append("@abc.abstractmethod")
     for dk, c in reversed(m.get("decos", [])):
